@@ -2,6 +2,7 @@ import ServlinVerif.Props.C06
 import ServlinVerif.Props.C05
 import ServlinVerif.Props.C06Chunked
 import ServlinVerif.Props.C07Prefix
+import ServlinVerif.Props.C08Fallback
 open Servlin.C06
 #print axioms C08_prefix
 #print axioms C08_source_fault
@@ -9,3 +10,5 @@ open Servlin.C06
 #print axioms Servlin.C05.C05_nothing_after_shutdown
 #print axioms Servlin.C06.C08_failed_stream_incomplete
 #print axioms Servlin.C07.C07_no_false_complete
+#print axioms Servlin.C08F.C08_error_responses_wellformed
+#print axioms Servlin.C08F.one_drop
